@@ -93,7 +93,7 @@ package putsvc
 //@   property C25
 //@   callee (*put.distributedTarget).applyECRule
 //@   pureeffect
-//@   requires [parts_encoded_for_this_rule] a3 == t.encodedECParts[a2]
+//@   requires [parts_encoded_for_this_or_an_identical_rule] exists k int :: ecRules[k] == ecRules[a2] && a3 == t.encodedECParts[k]
 //@   requires [node_list_selected_for_this_rule] a5 == objNodeLists[len(repRules) + a2]
 
 // Every REP rule is applied to its own node list; under the full policy the required and the
@@ -108,7 +108,7 @@ package putsvc
 
 //@ callrule c25_collaborators in (*distributedTarget).saveObject
 //@   property C25
-//@   callee (put.ContainerNodes).*, (object.Object).*, (*object.Object).*, (*netmap.InitialPlacementPolicy).*, (netmap.InitialPlacementPolicy).*, slices.*, put.localNodeInSet, put.newRepProgress, put.newMaxReplicasError, put.newCompletionError, (*put.distributedTarget).submitMetaCollection, (id.ID).*, (oid.Address).*
+//@   callee (put.ContainerNodes).*, (object.Object).*, (*object.Object).*, (*netmap.InitialPlacementPolicy).*, (netmap.InitialPlacementPolicy).*, slices.*, dynamic:freevar.sumLimitsSinceRule, dynamic:freevar.getRuleIdx, put.localNodeInSet, put.newRepProgress, put.newMaxReplicasError, put.newCompletionError, (*put.distributedTarget).submitMetaCollection, (id.ID).*, (oid.Address).*
 //@   pureeffect
 
 // Waiting for the workers: they update the acknowledgement counters (stored), never the
